@@ -136,8 +136,8 @@ def _convert_old_agg(agg: AST, unqiue_vars: UniqueVariables) -> AST:
 
     for old_elem in agg.elements:
         terms: list[AST] = []
-        atom = old_elem.literal.atom
         old_elem = _exline_interval(old_elem, unqiue_vars)
+        atom = old_elem.literal.atom  # after the intervals have been replaced by variables
         new_literal = old_elem.literal
         terms.append(SymbolicTerm(LOC, Number(1)))
         terms.append(SymbolicTerm(LOC, Number(nm[old_elem.literal.sign])))
